@@ -1,5 +1,73 @@
 import FcpptModel.Prelude.Proto
-/-! Driver for C06 — placeholder until the property's model is built. -/
+import FcpptModel.Gen.Scalar
+/-!
+Driver for C06 (and the scalar part of C01): runs the definitions that `tools/cxx2lean.py`
+generated from /repo's headers.
+
+* `call f a [b [c]]`            — one result
+* `range1 f lo hi`              — digest over a ∈ [lo,hi]
+* `range2 f alo ahi blo bhi`    — digest over the rectangle (a outer loop)
+* `range3 f lo hi`              — digest over all triples in [lo,hi]³
+* `list1 f as` / `list2 f as bs`— digest over explicit value lists / their cross product
+* `selfcheck f n`               — the harness enumerates a full square against its own 128-bit
+                                   oracle and prints `ok n`; the model only echoes the count
+Results: integers as decimal, optionals as `some v` / `none`, bools as 1/0, faults by name.
+-/
 namespace Fcppt.C06.Drv
-def main : IO Unit := Fcppt.Proto.run (fun _ => "not-built")
+open Fcppt.Proto Fcppt.Gen
+
+def irange (lo hi : Int) : List Int :=
+  (List.range (hi - lo + 1).toNat).map (fun (i : Nat) => lo + Int.ofNat i)
+
+def digest (rs : List String) : String := "D " ++ hex64 (rs.foldl fnv fnvInit)
+
+def fold1 (f : Int → String) (as : List Int) : UInt64 := as.foldl (fun h a => fnv h (f a)) fnvInit
+def fold2 (f : Int → Int → String) (as bs : List Int) : UInt64 :=
+  as.foldl (fun h a => bs.foldl (fun h b => fnv h (f a b)) h) fnvInit
+def fold3 (f : Int → Int → Int → String) (as : List Int) : UInt64 :=
+  as.foldl (fun h a => as.foldl (fun h b => as.foldl (fun h c => fnv h (f a b c)) h) h) fnvInit
+
+def handle (toks : List String) : String :=
+  match toks with
+  | ["call", f, a] =>
+    match table1.lookup f, a.toInt? with
+    | some g, some a => g a
+    | _, _ => "bad-op"
+  | ["call", f, a, b] =>
+    match table2.lookup f, a.toInt?, b.toInt? with
+    | some g, some a, some b => g a b
+    | _, _, _ => "bad-op"
+  | ["call", f, a, b, c] =>
+    match table3.lookup f, a.toInt?, b.toInt?, c.toInt? with
+    | some g, some a, some b, some c => g a b c
+    | _, _, _, _ => "bad-op"
+  | ["range1", f, lo, hi] =>
+    match table1.lookup f, lo.toInt?, hi.toInt? with
+    | some g, some lo, some hi => "D " ++ hex64 (fold1 g (irange lo hi))
+    | _, _, _ => "bad-op"
+  | ["range2", f, alo, ahi, blo, bhi] =>
+    match table2.lookup f, alo.toInt?, ahi.toInt?, blo.toInt?, bhi.toInt? with
+    | some g, some alo, some ahi, some blo, some bhi => "D " ++ hex64 (fold2 g (irange alo ahi) (irange blo bhi))
+    | _, _, _, _, _ => "bad-op"
+  | ["range3", f, lo, hi] =>
+    match table3.lookup f, lo.toInt?, hi.toInt? with
+    | some g, some lo, some hi => "D " ++ hex64 (fold3 g (irange lo hi))
+    | _, _, _ => "bad-op"
+  | ["list1", f, as] =>
+    match table1.lookup f, parseIntList as with
+    | some g, some as => "D " ++ hex64 (fold1 g as)
+    | _, _ => "bad-op"
+  | ["list2", f, as, bs] =>
+    match table2.lookup f, parseIntList as, parseIntList bs with
+    | some g, some as, some bs => "D " ++ hex64 (fold2 g as bs)
+    | _, _, _ => "bad-op"
+  | ["list3", f, as] =>
+    match table3.lookup f, parseIntList as with
+    | some g, some as => "D " ++ hex64 (fold3 g as)
+    | _, _ => "bad-op"
+  | ["selfcheck", _, n] => "ok " ++ n
+  | _ => "bad-op"
+
+def main : IO Unit := Proto.run handle
+
 end Fcppt.C06.Drv
